@@ -120,7 +120,7 @@ def exc_signature(e):
 
 class Clause:
     def __init__(self, name, strategy=None, check=None, quick=200, thorough=2000,
-                 rule="", cases=None, floors=None, fuzz=False, essential=None, doc="", cross_shard=False):
+                 rule="", cases=None, floors=None, fuzz=False, essential=None, doc="", cross_shard=False, thorough_only=False):
         self.name = name
         self.strategy = strategy
         self.check = check
@@ -131,6 +131,7 @@ class Clause:
         self.floors = floors or {}  # label -> minimal fraction (generator-distribution check)
         self.fuzz = fuzz            # eligible for the coverage-guided stage
         self.doc = doc
+        self.thorough_only = thorough_only
         self.cross_shard = cross_shard  # every shard runs the *same* generated cases; values compared across shards
 
     @property
